@@ -225,3 +225,78 @@ def run_shard(ctx, shard):
         ctx.sample(case, limit=1)
         if msgs:
             ctx.fail(case, "; ".join(msgs), sig="arm:%s:%s" % (arch, routine))
+
+
+# ------------------------------------------------------------------------------------------ expander cross-check (AArch64)
+def xcheck_aarch64():
+    """The macro expander's instruction stream must equal what LLVM assembles from the same file (clang can assemble the
+    AArch64 sources on this host; nothing can run them). Returns (instructions compared, [messages])."""
+    import re
+    import subprocess
+    import tempfile
+    from .expand import imm as _imm
+    msgs = []
+    total = 0
+    d = os.path.join(build.REPO, "src/core/arch/aarch64")
+    for f in ("bigint.s", "multiply.s"):
+        prog = a64.A64(open(os.path.join(d, f)).read())
+        with tempfile.TemporaryDirectory(prefix="a64x") as tmp:
+            obj = os.path.join(tmp, "o.o")
+            p = subprocess.run(["clang", "-target", "aarch64-linux-gnu", "-c", os.path.join(d, f), "-o", obj], stdout=subprocess.PIPE, stderr=subprocess.PIPE, text=True)
+            if p.returncode != 0:
+                return total, ["clang cannot assemble %s: %s" % (f, p.stderr[-300:])]
+            dis = subprocess.run(["llvm-objdump-14", "-d", "--no-show-raw-insn", obj], stdout=subprocess.PIPE, text=True).stdout
+        theirs = []
+        for line in dis.splitlines():
+            m = re.match(r"^\s*([0-9a-f]+):\s+(\S+)\s*(.*)$", line)
+            if m:
+                theirs.append((int(m.group(1), 16) // 4, m.group(2), m.group(3).strip()))
+
+        def R(x):
+            return a64.reg(x)
+
+        def canon_theirs(idx, mn, ops):
+            o = [t.strip() for t in re.split(r",\s*(?![^\[]*\])", ops)] if ops else []
+            if mn == "cmn":
+                return ("adds", 31, R(o[0]), ("r", R(o[1])))
+            if mn == "cmp":
+                return ("subs", 31, R(o[0]), ("i", _imm(o[1])) if o[1].startswith("#") else ("r", R(o[1])))
+            if mn in ("adds", "adcs", "subs", "sbcs", "add", "sub", "mul", "umulh"):
+                return (mn, R(o[0]), R(o[1]), ("i", _imm(o[2])) if o[2].startswith("#") else ("r", R(o[2])))
+            if mn == "ngcs":
+                return ("sbcs", R(o[0]), 31, ("r", R(o[1])))
+            if mn == "mov":
+                return ("mov", R(o[0]), ("i", _imm(o[1])) if o[1].startswith("#") else ("r", R(o[1])))
+            if mn == "cset":
+                c = {"hs": "cs", "lo": "cc"}.get(o[1], o[1])
+                return ("cset", R(o[0]), c)
+            if mn.startswith("b."):
+                tgt = int(re.match(r"0x([0-9a-f]+)", o[0]).group(1), 16) // 4
+                return ("b", mn[2:], tgt)
+            if mn == "ret":
+                return ("ret",)
+            if mn in ("ldp", "stp"):
+                return (mn, R(o[0]), R(o[1]), prog._mem(o[2:]))
+            if mn in ("ldr", "str"):
+                return (mn, R(o[0]), prog._mem(o[1:]))
+            return ("?", mn, ops)
+
+        def canon_ours(ins):
+            op = ins[0]
+            if op == "b":
+                return ("b", {"hs": "cs", "lo": "cc"}.get(ins[1], ins[1]) if False else ins[1], prog.prog.labels[ins[2]])
+            if op == "cset":
+                return ("cset", ins[1], {"hs": "cs", "lo": "cc"}.get(ins[2], ins[2]))
+            return tuple(ins[:-1])
+        ours = [canon_ours(i) for i in prog.code]
+        if len(ours) != len(theirs):
+            msgs.append("%s: expander yields %d instructions, LLVM assembles %d" % (f, len(ours), len(theirs)))
+            continue
+        for k, (mine, (idx, mn, ops)) in enumerate(zip(ours, theirs)):
+            t = canon_theirs(idx, mn, ops)
+            total += 1
+            if mine != t:
+                msgs.append("%s: instruction %d differs: expander %s vs LLVM %s (%s %s)" % (f, k, mine, t, mn, ops))
+                if len(msgs) > 5:
+                    break
+    return total, msgs
